@@ -22,6 +22,8 @@ METHODS = ('VecIndex::entries', 'VecIndex::embedding_for', 'VecIndex::remove')
 BUILDERS = {'Compressed': ('QuantizedVecIndexBuilder::finish',), 'Hnsw': ('VecIndexBuilder::finish_hnsw', 'HnswVecIndex::build')}
 
 
+OWN_CONFIGS = True    # this module selects its feature configurations itself
+
 def run(ctx):
     ctx.rule('AGREE-C14a', 'no reachable VecIndex representation has payload-ignoring arms in entries/embedding_for/remove')
     ctx.rule('FLOW-C14b', 'build_vec_artifact = active(index.entries()) + new docs; rebuild_indexes wires it')
